@@ -239,7 +239,10 @@ def js_request(case):
     ctx = qast.Ctx(case['a_names'], case['b_names'])
     qtext = qast.render(case['q'], ctx, 'js')
     case['query_text_js'] = qtext
-    return {'query': qtext, 'input': case['A'], 'join': case['B'], 'input_cols': case['a_names'], 'join_cols': case['b_names']}
+    req = {'query': qtext, 'input': case['A'], 'join': case['B'], 'input_cols': case['a_names'], 'join_cols': case['b_names']}
+    if case.get('init'):
+        req['init_code'] = qast.INIT_JS
+    return req
 
 
 def js_got(o):
